@@ -114,7 +114,7 @@ func goEnv(cfg BuildCfg, work string) []string {
 		}
 		env = append(env, e)
 	}
-	env = append(env, "GOFLAGS=", "GOWORK="+work, "GOPROXY=off", "GOOS="+cfg.GOOS, "GOARCH="+cfg.GOARCH, "CGO_ENABLED=0")
+	env = append(env, "GOFLAGS=-trimpath", "GOWORK="+work, "GOPROXY=off", "GOOS="+cfg.GOOS, "GOARCH="+cfg.GOARCH, "CGO_ENABLED=0")
 	return env
 }
 
